@@ -23,6 +23,11 @@ type CleanCase struct {
 	// Links are symbolic links in the project tree: path -> target (target relative to the link's directory)
 	Links map[string]string `json:"links,omitempty"`
 	FromHome bool   `json:"from_home,omitempty"` // invoke from $HOME (the parent of the project); needs Spokfile != ""
+	// ViaLink: the project is reached through a symbolic link in its path ($HOME/via -> . , project = $HOME/via/proj):
+	// $PWD, the working directory and --spokfile carry the logical path. RealVars: absolute values in the spokfile
+	// are nevertheless written with the physical path.
+	ViaLink  bool `json:"via_link,omitempty"`
+	RealVars bool `json:"real_vars,omitempty"`
 }
 
 type cleanScen struct{}
@@ -119,6 +124,10 @@ func (cleanScen) Gen(r *Rng, cfg GenConfig) any {
 		}
 		c.Tree["keep.txt"], c.Tree["src/main.c"], c.Tree["docs/readme.md"] = "x", "x", "x"
 	}
+	if r.Chance(1, 6) {
+		c.ViaLink = true
+		c.RealVars = r.Chance(1, 3)
+	}
 	if r.Chance(1, 4) {
 		c.Spokfile = Pick(r, []string{"abs", "rel", "rel"})
 		if c.Cwd == "" && r.Chance(1, 2) {
@@ -142,7 +151,17 @@ func (cleanScen) Exec(w *World, cc any, prop string) *Result {
 	c := cc.(*CleanCase)
 	res := newResult()
 	proj := w.Proj
-	text := strings.ReplaceAll(c.Prog.Render(), "{PROJ}", proj)
+	logical := proj // the path under which the user (cwd, $PWD, --spokfile) addresses the project
+	if c.ViaLink {
+		must(os.Symlink(".", filepath.Join(w.Home, "via")))
+		logical = filepath.Join(w.Home, "via", filepath.Base(proj))
+		res.count("fault_present:project_reached_through_symlinked_path")
+	}
+	inSpokfile := logical
+	if c.RealVars {
+		inSpokfile = proj
+	}
+	text := strings.ReplaceAll(c.Prog.Render(), "{PROJ}", inSpokfile)
 	writeFile(filepath.Join(proj, "spokfile"), text)
 	model := map[string]string{}
 	for _, d := range append([]string{"src", "docs"}, c.Dirs...) {
@@ -174,9 +193,13 @@ func (cleanScen) Exec(w *World, cc any, prop string) *Result {
 			res.count("fault_present:symlink_in_tree")
 		}
 	}
-	cwd := filepath.Join(proj, filepath.FromSlash(c.Cwd))
+	cwd := filepath.Join(logical, filepath.FromSlash(c.Cwd))
 	if c.FromHome && c.Spokfile != "" {
 		cwd = w.Home
+	}
+	env := w.BaseEnv()
+	if c.ViaLink {
+		env["PWD"] = cwd
 	}
 	inv := 0
 	if len(c.PreRun) > 0 {
@@ -202,7 +225,7 @@ func (cleanScen) Exec(w *World, cc any, prop string) *Result {
 		case "join":
 			j := filepath.Join(args...)
 			if !filepath.IsAbs(j) {
-				j = filepath.Join(cwd, j)
+				j = filepath.Join(proj, filepath.FromSlash(c.Cwd), j) // relative joins are only generated for invocations from inside the project
 			}
 			vars[v.Name] = j
 		}
@@ -298,9 +321,9 @@ func (cleanScen) Exec(w *World, cc any, prop string) *Result {
 	args := []string{"--clean"}
 	switch c.Spokfile {
 	case "abs":
-		args = append(args, "--spokfile", filepath.Join(proj, "spokfile"))
+		args = append(args, "--spokfile", filepath.Join(logical, "spokfile"))
 	case "rel":
-		relp, err := filepath.Rel(cwd, filepath.Join(proj, "spokfile"))
+		relp, err := filepath.Rel(cwd, filepath.Join(logical, "spokfile"))
 		must(err)
 		if !strings.Contains(relp, "/") && c.Prog.Layout%2 == 0 {
 			relp = "./" + relp
@@ -308,7 +331,7 @@ func (cleanScen) Exec(w *World, cc any, prop string) *Result {
 		args = append(args, "--spokfile", relp)
 		res.count("probe:relative_spokfile_flag")
 	}
-	obs := w.Invoke(Invocation{Args: args, Cwd: cwd, Env: w.BaseEnv(), Inv: inv, Sched: Sched{Policy: "fifo"}, Faults: f, Protect: protect})
+	obs := w.Invoke(Invocation{Args: args, Cwd: cwd, Env: env, Inv: inv, Sched: Sched{Policy: "fifo"}, Faults: f, Protect: protect})
 	res.Ops++
 	post := Snap(w.Home)
 	created, removed, changed := pre.Diff(post)
@@ -335,7 +358,7 @@ func (cleanScen) Exec(w *World, cc any, prop string) *Result {
 		ks = append(ks, k)
 	}
 	sort.Strings(ks)
-	res.distinct(fmt.Sprintf("%v|clean%v|cwd%q|home%v|spokfile-%s|fault%v|failed%v", ks, hasClean, c.Cwd, c.FromHome, c.Spokfile, faultFired, obs.Failed))
+	res.distinct(fmt.Sprintf("%v|clean%v|cwd%q|home%v|spokfile-%s|via%v%v|fault%v|failed%v", ks, hasClean, c.Cwd, c.FromHome, c.Spokfile, c.ViaLink, c.RealVars, faultFired, obs.Failed))
 	sig := fmt.Sprintf("clean:%v", ks)
 
 	// ---- the protected set is never touched (detected before the deletion happens)
